@@ -127,6 +127,7 @@ void end_run(const ShapeDesc& sd, RunCtl& ctl, RunState& rs) {
     if (w.connects != w.op_destroys) SR_FAIL("C02", "child_op_leak", "%ld child operation states were created but %ld destroyed [%s]", w.connects, w.op_destroys, sd.text);
   }
   if (rs.ledger.allocs != rs.ledger.deallocs) SR_FAIL("C02", "allocator_imbalance", "allocator: %ld allocations, %ld deallocations [%s]", rs.ledger.allocs, rs.ledger.deallocs, sd.text);
+  for (auto& l : rs.ledger_n) if (l.allocs != l.deallocs) SR_FAIL("C02", "allocator_imbalance", "allocator #%ld: %ld allocations, %ld deallocations [%s]", l.id, l.allocs, l.deallocs, sd.text);
   if (rs.inplace) { delete rs.inplace; rs.inplace = nullptr; }   // asserts "no dangling callbacks" inside libunifex
   sr::world_ptr() = nullptr;
 }
